@@ -7,8 +7,10 @@ TRUSTED = [
     "translate/tab2d.py (appendSamplePoint guide rule + eval/findPoints/x-/ySegmentIndex expression shapes -> Gen/Tab2D.lean), translate/pvt.py (updateSaturationPressure_ sampling shape, Newton loop constants -> Gen/Pvt.lean); both cross-checked by the bit-exact correspondence of the dumped internal tables",
     "translate/pvtregion.py (shape of PvtxTable::init / recordRanges / numTables, TableManager::initFullTables / initSimpleTableContainer; keyword routing -> Gen/PvtRegion.lean); cross-checked by the pvt.regions / pvt.simple correspondence on keywords with up to 6 regions and by property mode on whole decks",
     "harness/pvt.cpp + lib/vlib.py differ; model driver (compiled Lean, Float = IEEE double, operation order of the C++ mirrored)",
-    "Float ~ R: theorems are over a linearly ordered field; the IEEE execution of the same definitions is compared bit for bit with the C++",
-    "modelled, not verified: Parser/unit conversion (decided by property mode against independently written conversion factors), thermal/CO2/H2/brine PVT, VAPPARS modifiers, setSaturated* convenience initialisers, isfinite test (applied in the front end)",
+    "Float ~ R: theorems are over a linearly ordered field (HasDerivAt / continuity over the reals, Mathlib.Analysis.Calculus.Deriv.{Add,Mul}); the IEEE execution of the same definitions is compared bit for bit with the C++",
+    "master-table extension (extendRows/findMaster/extendAll) and fillTable: proved about the model; model = code by the bit-exact pvt.dump correspondence of every internal table and by the extend.* property laws computed from the deck numbers alone",
+    "modelled, tied by correspondence only (not proved): fillBMu / invSatBMu layout (undersat_meets_sat for mu), RightExtreme (PVTG) analogue of undersat_meets_sat",
+    "modelled, not verified: Parser/unit conversion (decided by property mode against independently written conversion factors), thermal/CO2/H2/brine PVT, PVTGW/PVTGWO, VAPPARS modifiers, setSaturated* convenience initialisers, isfinite test (applied in the front end)",
 ]
 
 
